@@ -125,6 +125,9 @@ func (c *Ctx) RunSharded(name string) {
 			case "case":
 				lastCase = m.I
 				c.Add("evaluations", 1)
+				if s.Describe != nil && (m.I%97 == 0 || m.I == total-1) {
+					c.Sample(map[string]interface{}{"engine": "sharded." + name, "case": m.I, "desc": s.Describe(m.I)})
+				}
 			case "report":
 				if m.Replay == nil {
 					m.Replay = map[string]interface{}{}
